@@ -69,6 +69,12 @@ BodyNamesTaken(d) ==
             /\ \A nm \in {"body", "requestBody"} :
                   \E x \in ps : Opt(x, "in") \notin {S("body"), S("formData")} /\ Opt(x, "name") = S(nm)
 
+(* the value at a path of keys in a tagged object (Absent when the path leaves it) *)
+RECURSIVE AtPath(_, _)
+AtPath(v, path) == IF path = <<>> THEN v
+                   ELSE IF v.t = "obj" /\ Head(path) \in DOMAIN v.m THEN AtPath(v.m[Head(path)], Tail(path))
+                   ELSE Absent
+
 IsBack(v) == v.dir = "back" /\ v.failed = "v2_again_describes_another_api"
 IsFwd(v)  == v.dir = "fwd" /\ v.failed = "v3_describes_another_api"
 
@@ -137,6 +143,13 @@ Class(line, v) ==
            /\ v.exp # Nul /\ v.got = Nul
            /\ ProducesAt(d, p[2], p[4]) # {} /\ "application/json" \notin ProducesAt(d, p[2], p[4])
       THEN "back_response_schema_lost_without_json"
+   \* F-C17-16 the repair of F-C17-14 keeps only type and format of a binary string parameter / response header
+   \*          (FromV3SchemaRef still hands back no schema for it): its other keywords are gone after the round trip
+   ELSE IF /\ IsBack(v) /\ v.got = Absent /\ v.exp # Absent /\ Last(p) \notin {"type", "format"}
+           /\ \/ Len(p) = 6 /\ p[1] = "ops" /\ p[3] = "params" /\ p[5] = "cons"
+              \/ Len(p) = 7 /\ p[1] = "ops" /\ p[3] = "responses" /\ p[5] = "headers"
+           /\ IsBinNorm(AtPath(Api2(d), SubSeq(p, 1, Len(p) - 1)))
+      THEN "back_binary_parameter_keywords_lost"
    \* F-C17-15 FromV3Operation insists on a free name among "body" / "requestBody" although the original name is at hand
    ELSE IF v.failed = "from_v3_error" /\ BodyNamesTaken(d)
       THEN "from_v3_fails_body_names_taken"
